@@ -221,7 +221,7 @@ func checkWidths(r *core.Run) {
 }
 
 func Main(r *core.Run) {
-	r.Rule("declared vocabulary of Go types (every scalar; int8…int64/uint8…uint64/float32 widths; []T and []*T; ordered-map structs with V and *V; *T optional, *T nullable, **T both; keyed union struct incl. optional; string and int enums; cid.Cid, cidlink.Link, datamodel.Link; datamodel.Node Any incl. optional; nested) each with an explicit schema × boundary values of every field: Wrap reads as the independent view of the Go value, prototype-build + Unwrap reproduces it, Marshal/Unmarshal through dag-cbor and dag-json reproduces it (ordered maps in codec order); every out-of-width integer at both levels must be an error. Histories: every sequence of ≤2 (thorough: ≤3) calls out of Wrap/Prototype/Marshal+Unmarshal with explicit, inferred and Go-only arguments over three named types (two sharing a field type), each history in its own subprocess (the package-level inferred type system cannot be reset), every call compared with its result as the first call of a fresh process. Non-trivial = every value case and every history of ≥2 calls; distinct by construction.")
+	r.Rule("declared vocabulary of Go types (every scalar; int8…int64/uint8…uint64/float32 widths; []T and []*T; ordered-map structs with V and *V; *T optional, *T nullable, **T both; keyed union struct incl. optional; string and int enums; cid.Cid, cidlink.Link, datamodel.Link; datamodel.Node Any incl. optional; nested) each with an explicit schema × boundary values of every field: Wrap reads as the independent view of the Go value, prototype-build + Unwrap reproduces it, Marshal/Unmarshal through dag-cbor and dag-json reproduces it (ordered maps in codec order); every out-of-width integer at both levels must be an error. Histories: every sequence of ≤2 (thorough: ≤3) calls out of Wrap/Prototype/Marshal+Unmarshal with explicit, inferred and Go-only arguments over five named types (two sharing a named field type, two holding distinct Go slice types that infer to the same schema list type), each history in its own subprocess (the package-level inferred type system cannot be reset), every call compared with its result as the first call of a fresh process. Non-trivial = every value case and every history of ≥2 calls; distinct by construction.")
 	r.Assume("independent view of each Go value hand-written per type in mc/props/c19/types.go (no reflection walk shared with bindnode)")
 	var cases []Case
 	for _, e := range Vocabulary {
@@ -282,7 +282,18 @@ type HB struct {
 }
 type HC struct{ V int64 }
 
+// distinct Go types that infer to the same schema type ([]string and []HStr are both a list of String)
+type HStr string
+type HD struct{ L []string }
+type HE struct {
+	L []HStr
+	M []string
+	I []int64
+}
+
 const histSchema = `
+type HD struct { L [String] }
+type HE struct { L [String]  M [String]  I [Int] }
 type HShared struct { X Int }
 type HA struct { S HShared  N String }
 type HB struct { S HShared  L [HShared] }
@@ -295,6 +306,10 @@ func histValue(t string) interface{} {
 		return &HA{HShared{1}, "n"}
 	case "HB":
 		return &HB{HShared{2}, []HShared{{3}}}
+	case "HD":
+		return &HD{[]string{"d"}}
+	case "HE":
+		return &HE{[]HStr{"e"}, []string{"f", "g"}, []int64{5}}
 	}
 	return &HC{4}
 }
@@ -382,7 +397,7 @@ func spawn(h History) ([]string, error) {
 }
 
 var callKinds = []string{"wrap-explicit", "wrap-inferred", "proto-explicit", "proto-goonly", "marshal-inferred"}
-var histTypes = []string{"HA", "HB", "HC"}
+var histTypes = []string{"HA", "HB", "HC", "HD", "HE"}
 
 func alphabet() []Call {
 	var out []Call
